@@ -178,8 +178,33 @@ def rule_d(repo, chk):
     chk.ob('C10.d', ok, pp, 'a pkgutil/pkg_resources namespace collects every directory of that name (portions need no __init__.py)')
 
 
+def rule_e(repo, chk):
+    chk.clause('C10.e', 'module search locations keep a defined order: no producer of a search path (py__path__ implementations, the project and '
+                        'environment sys path getters) returns a sequence obtained by iterating a set/ValueSet without a sort — with a name clash '
+                        'between two locations the first one wins, so the order decides which file an import resolves to')
+    from ..order import OrderAnalysis
+    oa = OrderAnalysis(repo)
+    names = ('py__path__', '_get_base_sys_path', 'discover_buildout_paths')
+    n = 0
+    for nm in names:
+        for m, q, f in repo.methods_by_name.get(nm, []):
+            n += 1
+            bad = []
+            for kind, v in oa.returns(f):
+                if kind == 'ret' and oa.is_unordered(v, f):
+                    bad.append('returns `%s`' % short(v, 60))
+                elif kind == 'yieldfrom' and oa.is_unordered(v, f):
+                    bad.append('yields from `%s`' % short(v, 60))
+                elif kind == 'yield' and oa.yield_in_unordered_loop(v, f):
+                    bad.append('yields in a loop over a set')
+            known_src = any('check_sys_path_modifications' in b or 'discover_buildout_paths' in b for b in bad)
+            chk.ob('C10.e', not bad, f, 'search-location producer %s:%s returns its entries in a hash/address independent order' % (m.name, q),
+                   '; '.join(bad), key='ordered-locations|%s:%s' % (m.name, q))
+    chk.floor('C10.e', n, 5, '(search-location producers)')
+
+
 def describe(chk):
     chk.undecided('agreement with importlib over all directory trees (run-time oracle); the path -> dotted name direction (transform_path_to_dotted)')
 
 
-RULES = [('C10.a', rule_a), ('C10.b', rule_b), ('C10.c', rule_c), ('C10.d', rule_d)]
+RULES = [('C10.a', rule_a), ('C10.b', rule_b), ('C10.c', rule_c), ('C10.d', rule_d), ('C10.e', rule_e)]
